@@ -355,6 +355,22 @@ func (s *v14Session) run() {
 			case <-time.After(30 * time.Second):
 			}
 		}
+		// ServeConn does not wait for its handlers: a handler whose response the client has
+		// read to the end may still be on its way out (in the bubble synctest.Wait settles it).
+		for i := 0; i < 3000; i++ {
+			s.mu.Lock()
+			running := 0
+			for _, sn := range s.seen {
+				if sn != nil && !sn.Returned {
+					running++
+				}
+			}
+			s.mu.Unlock()
+			if running == 0 {
+				break
+			}
+			time.Sleep(10 * time.Millisecond)
+		}
 		return
 	}
 	synctest.Wait()
